@@ -64,6 +64,9 @@ def expressions(tier: str, seed: int) -> list[tuple[str, str]]:
         "NEWLINE | \" \" | \"\\t\"",
         "LETTER | \"_\" | '0'..'9'",
         "^\"ß\" | ^\"é\" | \"E\"",
+        "'z'..'a' | \"x\"",
+        "'a'..'z' | 'c'..'d' | \"_\"",
+        "'!'..'~' | ASCII_DIGIT | \" \"",
     ]
     n_mix = 40 if tier == "thorough" else 3
     for _ in range(n_mix):
